@@ -104,6 +104,25 @@ def bind(chk: Check, tier: str, seed: int):
             recs.append({"obs": obs})
             hpicked.append((m, d, rep))
     emitted_all = list(emitted) + [em for (_, em) in hist for _ in (1, 2)]
+    # ONE decoder gets every rendering of every message, in an order that changes from message to message: whole messages
+    # before frames, frames before whole messages, binary between text (a bridge that reads several gateways)
+    mixed = NMEA2000Decoder()
+    mx = hist[:: max(1, len(hist) // 60)]
+    for j, ((m, d, _), em) in enumerate(mx):
+        obs = {}
+        order = FORMATS[j % len(FORMATS):] + FORMATS[:j % len(FORMATS)]
+        if j % 2:
+            order = order[::-1]
+        for f in order:
+            o = feed(f, em[f], mixed)
+            if o["_m"] is not None:
+                mm = o["_m"]
+                o["msg"] = proj(mm, by_id.get(mm.id), raw_by_id.get(mm.id))
+            del o["_m"]
+            obs[f] = o
+        recs.append({"obs": {f: obs[f] for f in FORMATS}})
+        hpicked.append((m, d, 4))
+    emitted_all += [em for (_, em) in mx]
     # decoders with network mapping on whose discovery window has passed (the clock the decoder reads is 11 minutes ahead of their
     # creation): sources that never claimed are returned, whatever time stamp the format carries in its text
     import datetime as _dt
@@ -142,7 +161,7 @@ def bind(chk: Check, tier: str, seed: int):
                "actiL": "actisense"}.get(fmt, fmt)
         kind = "fast" if m["fast"] else "single"
         short = "/short" if m["fast"] and len(m["payload"]) <= 8 else ""
-        hist_tag = ("/network-map" if picked[b["k"] - 1][2] == 3 else "/sent-again") if b["k"] > n_fresh else ""
+        hist_tag = ({3: "/network-map", 4: "/one-decoder-all-formats"}.get(picked[b["k"] - 1][2], "/sent-again")) if b["k"] > n_fresh else ""
         chk.violation(f"{b['v']['c']}/{fam}/{kind}{short}{hist_tag}",
                       f"{d['id']} (PGN {m['pgn']}, {len(m['payload'])} bytes, {kind}) through {fmt}: {b['v']['c']} "
                       f"{recs[b['k'] - 1]['obs'][fmt]['err']}",
